@@ -19,6 +19,8 @@ PALETTE = {
     "quotsp": "a' b", "quotend1": "a' ", "dq1": "a\" b",
     # delimiter characters on both sides of a line terminator (inside triple-quoted strings the runs must not be added up)
     "mlqq": 'ab""\n"cd', "mlaa": "x'\n''y", "mlq1": 'a"\n"b', "mla1": "a'\n'b",
+    # look-alikes of the reserved words that are ordinary values (only data_* / save_* are reserved as prefixes)
+    "stopx": "stop_codon", "STOPx": "STOP_1", "loopx": "loop_x", "globalx": "global_x", "qmark": "?abc", "dotx": ".5a",
 }
 
 
@@ -314,7 +316,7 @@ DEFECTS = ["missing_value", "missing_value_loop", "missing_value_table", "dup_sc
            "unclosed_text", "unclosed_triple", "missing_space_qq", "missing_space_qname", "missing_space_list", "stray_cbracket", "stray_cbrace",
            "missing_cbracket", "missing_cbrace", "missing_key", "missing_key_bare", "null_key", "unquoted_key", "text_key", "reserved_data",
            "reserved_stop", "reserved_global", "unexpected_value", "unexpected_value_q", "unexpected_term", "no_frame_term", "nested_frame",
-           "eof_in_frame", "overlength", "maxlength", "overlength_u4", "maxlength_u4", "long_u4_value", "disallowed_char", "disallowed_char_cmt", "disallowed_del", "no_block_header"]
+           "eof_in_frame", "overlength", "maxlength", "overlength_u4", "maxlength_u4", "long_u4_value", "lookalike_stop", "lookalike_loop", "lookalike_global", "lookalike_qmark", "disallowed_char", "disallowed_char_cmt", "disallowed_del", "no_block_header"]
 
 
 def c12(tier, replay=None):
